@@ -265,8 +265,8 @@ impl Recorder {
                     l.count(&format!("VIOLATION-KIND call={} clause={} observed={} region={}", b.call, b.clause, b.sig, b.region.join("+")), 1);
                     if l.viols.len() < self.max_viols_kept {
                         l.viols.push(*b);
-                    } else if let Some(mx) = l.viols.iter_mut().max_by_key(|x| x.index) {
-                        if b.index < mx.index {
+                    } else if let Some(mx) = l.viols.iter_mut().max_by_key(|x| (!x.call.starts_with("hist"), x.index)) {
+                        if (!b.call.starts_with("hist"), b.index) < (!mx.call.starts_with("hist"), mx.index) {
                             *mx = *b;
                         }
                     }
@@ -400,7 +400,8 @@ impl Runner {
                 }
             }
         }
-        self.viols.sort_by_key(|v| v.index);
+        // history violations first (they carry the whole call sequence and replay faithfully), then by enumeration index
+        self.viols.sort_by_key(|v| (!v.call.starts_with("hist"), v.index));
         {
             let mut seen = std::collections::HashSet::new();
             self.viols.retain(|v| seen.insert((v.call.clone(), v.clause.clone(), v.args.clone())));
@@ -454,6 +455,8 @@ impl Runner {
             }
         }
         let mut replay_paths = vec![];
+        // (when a history violation exists the library has hidden state, and a violation recorded by an ordinary phase -
+        // one call, no history - may not reproduce in isolation: the history replays were sorted first)
         if !self.viols.is_empty() {
             let dir = format!("{}/{}", replay_dir, self.property);
             let _ = std::fs::create_dir_all(&dir);
